@@ -31,5 +31,12 @@ for d in sorted(glob.glob(os.path.join(V, 'seeded', 'C*'))):
         fr = 'first run: ' + ('caught' if f0.get(sid[:3]) else ('other property only: ' + ','.join(sorted(f0)) if f0 else 'MISSED'))
     if sid in first3:
         fr = 'first run: ' + ('caught' if first3[sid].get('own_property_fired_on_first_run') else 'not caught by ' + sid[:3])
+    for fn_ in ('round4_first_run.json', 'round5_first_run.json'):
+        pth = os.path.join(V, 'seeded', fn_)
+        if os.path.exists(pth):
+            d_ = json.load(open(pth))
+            if sid in d_:
+                o_ = d_[sid].get('other_properties_fired') or []
+                fr = 'first run: ' + ('caught' if d_[sid].get('own_property_fired_on_first_run') else ('only by ' + ', '.join(o_) if o_ else 'not caught'))
     rows.append('| %s | %s | %s%s |' % (sid, what.replace('|', '/'), caught, (' — ' + fr) if fr else ''))
 print('\n'.join(rows))
